@@ -47,6 +47,16 @@ def run_mutant(m, known_oids):
         hints = [o for o in failed if o not in known_oids and G.obligations[o]['kind'] == 'proof-hint']
         fo = [o for o in failed if o not in known_oids and G.obligations[o]['kind'] != 'proof-hint']
         props = sorted({t for o in fo for t in G.obligations[o]['tags']})
+        if m['file'] in ('libxcp/src/backup.rs', 'libxcp/src/config.rs', 'libxcp/src/drivers/mod.rs', 'src/main.rs'):
+            # files with a bounded stand-in: the enumeration runs on the mutated copy as well
+            from . import bounded
+            from .checks import BOUNDED_KINDS
+            b = bounded.backup_bounded(overlay=wd)
+            kinds = {f.split(' ::')[0].strip() for f in b.get('failures', [])}
+            bp = sorted(p_ for p_, ks in BOUNDED_KINDS.items() if ks & kinds)
+            if bp:
+                fo = fo + ['bounded:' + k for k in sorted(kinds)]
+                props = sorted(set(props) | set(bp))
         if fo:
             return {'id': m['id'], 'status': 'killed', 'by': fo[:6], 'props': props}
         if hints:
